@@ -32,6 +32,9 @@ CONSTANTS Pilots,            \* set of pilot names (strings)
                              \* a sound reduction of the interleavings; FALSE = as the rig.
           FwdChoice,         \* flag values Publish chooses from (FwdVals; simulation
                              \* runs narrow it to get more forwarded messages)
+          NRpc,              \* number of RPC requests (each takes two ids: request + result)
+          DevResultCopiesFwd,\* the RPC result is published with the flag the request
+                             \* arrived with (cleared after one hop) instead of fwd = true
           DevKeepFwd,        \* L2P does not clear the fwd flag
           DevL2PAnyOrigin,   \* L2P forwards messages stamped by others
           DevL2PIgnoreFwd,   \* L2P forwards unflagged messages
@@ -43,13 +46,20 @@ Origins == Sides \cup Unknown \cup {Absent}
 Ids     == 1 .. NMsgs
 LocK    == {"AA", "AL", "PA", "PL"}
 NoPub   == [side |-> "none", origin |-> Absent, fwd |-> Absent]
+NoRpc   == [kind |-> "none", peer |-> "none", re |-> 0, n |-> 0]
+
+ASSUME EagerApp => NRpc = 0
 
 \* pilots are interchangeable: symmetry set for safety runs in which Pilots
 \* are model values (never used together with liveness checking)
 PilotPerms == Permutations(Pilots)
 
-VARIABLES next, pub, qloc, qpx, got
-vars == <<next, pub, qloc, qpx, got>>
+\* rpc[i] (ghost): "req" - i is an RPC request addressed to side peer, served n
+\* times; "res" - i is the result of request re, due back at side peer
+VARIABLES next, pub, qloc, qpx, got, rpc
+vars == <<next, pub, qloc, qpx, got, rpc>>
+
+Unserved == Cardinality({i \in Ids : rpc[i].kind = "req" /\ rpc[i].n = 0})
 
 Init ==
   /\ next = 1
@@ -57,25 +67,53 @@ Init ==
   /\ qloc = [s \in Sides |-> [k \in LocK |-> <<>>]]
   /\ qpx  = [s \in Sides |-> [t \in Sides |-> <<>>]]
   /\ got  = [s \in Sides |-> [i \in Ids |-> 0]]
+  /\ rpc  = [i \in Ids |-> NoRpc]
 
 (* ---- an ordinary component of side s publishes on its local pubsub ------ *)
 Publish(s, o, f) ==
-  /\ next <= NMsgs
+  /\ next + Unserved <= NMsgs
   /\ LET m == [id |-> next, origin |-> o, fwd |-> f, hops |-> 0] IN
      qloc' = IF EagerApp THEN [qloc EXCEPT ![s]["AL"] = Append(@, m)]
                          ELSE [qloc EXCEPT ![s]["AA"] = Append(@, m), ![s]["AL"] = Append(@, m)]
   /\ got'  = IF EagerApp THEN [got EXCEPT ![s][next] = @ + 1] ELSE got
   /\ pub'  = [pub EXCEPT ![next] = [side |-> s, origin |-> o, fwd |-> f]]
   /\ next' = next + 1
-  /\ UNCHANGED qpx
+  /\ UNCHANGED <<qpx, rpc>>
+
+(* ---- a component of side a sends an RPC request addressed to side b: an ---- *)
+(* ---- RPCRequestMessage, fwd = true by class default, no origin         ---- *)
+PublishReq(a, b) ==
+  /\ ~EagerApp
+  /\ Cardinality({i \in Ids : rpc[i].kind = "req"}) < NRpc
+  /\ next + Unserved + 1 <= NMsgs
+  /\ LET m == [id |-> next, origin |-> Absent, fwd |-> "true", hops |-> 0] IN
+     qloc' = [qloc EXCEPT ![a]["AA"] = Append(@, m), ![a]["AL"] = Append(@, m)]
+  /\ pub'  = [pub EXCEPT ![next] = [side |-> a, origin |-> Absent, fwd |-> "true"]]
+  /\ rpc'  = [rpc EXCEPT ![next] = [kind |-> "req", peer |-> b, re |-> 0, n |-> 0]]
+  /\ next' = next + 1
+  /\ UNCHANGED <<qpx, got>>
 
 (* ---- delivery to the ordinary subscriber of s, from app(s) or P2L(s) ---- *)
 DeliverApp(s, src) ==
   LET k == IF src = "app" THEN "AA" ELSE "PA" IN
   /\ qloc[s][k] # <<>>
   /\ got'  = [got EXCEPT ![s][Head(qloc[s][k]).id] = @ + 1]
-  /\ qloc' = [qloc EXCEPT ![s][k] = Tail(@)]
-  /\ UNCHANGED <<next, pub, qpx>>
+  /\ LET m == Head(qloc[s][k])
+         q == [qloc EXCEPT ![s][k] = Tail(@)] IN
+     IF rpc[m.id].kind = "req" /\ rpc[m.id].peer = s /\ next <= NMsgs
+     THEN \* _control_cb -> _handle_rpc_msg: the addressed component serves the
+          \* request and publishes the RPCResultMessage on its local pubsub
+          LET f == IF DevResultCopiesFwd THEN m.fwd ELSE "true"
+              r == [id |-> next, origin |-> Absent, fwd |-> f, hops |-> 0] IN
+          /\ qloc' = [q EXCEPT ![s] = [@ EXCEPT !["AA"] = Append(@, r), !["AL"] = Append(@, r)]]
+          /\ pub'  = [pub EXCEPT ![next] = [side |-> s, origin |-> Absent, fwd |-> f]]
+          /\ rpc'  = [rpc EXCEPT ![m.id].n = @ + 1,
+                                 ![next] = [kind |-> "res", peer |-> pub[m.id].side,
+                                            re |-> m.id, n |-> 0]]
+          /\ next' = next + 1
+     ELSE /\ qloc' = q
+          /\ UNCHANGED <<next, pub, rpc>>
+  /\ UNCHANGED qpx
 
 (* ---- delivery to the local -> proxy forwarder of s --------------------- *)
 DeliverL2P(s, src) ==
@@ -84,7 +122,7 @@ DeliverL2P(s, src) ==
   /\ LET outs == L2POut(s, Head(qloc[s][k]), DevKeepFwd, DevL2PAnyOrigin, DevL2PIgnoreFwd) IN
      qpx' = [qpx EXCEPT ![s] = [t \in Sides |-> qpx[s][t] \o outs]]
   /\ qloc' = [qloc EXCEPT ![s][k] = Tail(@)]
-  /\ UNCHANGED <<next, pub, got>>
+  /\ UNCHANGED <<next, pub, got, rpc>>
 
 (* ---- delivery of what L2P(s) put on the proxy to the P2L forwarder of t - *)
 DeliverP2L(s, t) ==
@@ -95,7 +133,7 @@ DeliverP2L(s, t) ==
      /\ got'  = IF EagerApp /\ outs # <<>>
                 THEN [got EXCEPT ![t][Head(qpx[s][t]).id] = @ + 1] ELSE got
   /\ qpx' = [qpx EXCEPT ![s][t] = Tail(@)]
-  /\ UNCHANGED <<next, pub>>
+  /\ UNCHANGED <<next, pub, rpc>>
 
 Deliver ==
   \/ \E s \in Sides, src \in {"app", "p2l"} : DeliverApp(s, src) \/ DeliverL2P(s, src)
@@ -103,6 +141,7 @@ Deliver ==
 
 Next ==
   \/ \E s \in Sides, o \in Origins, f \in FwdChoice : Publish(s, o, f)
+  \/ \E a \in Sides, b \in Sides : PublishReq(a, b)
   \/ Deliver
 
 Fairness ==
@@ -128,6 +167,8 @@ TypeOK ==
   /\ \A m \in InFlight : m.id \in Published /\ m.origin \in Origins /\ m.fwd \in FwdVals
                          /\ m.hops \in Nat
   /\ \A s \in Sides, i \in Ids : got[s][i] \in Nat
+  /\ \A i \in Ids : rpc[i] = NoRpc \/ (i \in Published /\ rpc[i].kind \in {"req", "res"}
+                                       /\ rpc[i].peer \in Sides /\ rpc[i].n \in Nat)
 
 \* always got <= 1: nothing twice, in particular not a second time on the
 \* side a message came from
@@ -140,6 +181,15 @@ InvStaysLocal == \A s \in Sides, i \in Published : got[s][i] <= Expect(pub[i], s
 \* once no instance of a message is in flight every side got what it is due:
 \* forwarded messages exactly once everywhere, the others once at home
 InvSettled == \A i \in Ids : Settled(i) => \A s \in Sides : got[s][i] = Expect(pub[i], s)
+
+\* RPC round trip: the result of a request sent by side a comes back to a exactly
+\* once, wherever the request was served (the result is a message of its own:
+\* the flag it is published with decides, the request's flag is spent)
+InvRpcReturns == \A i \in Published :
+                    rpc[i].kind = "res" /\ Settled(i) => got[rpc[i].peer][i] = 1
+\* and the addressed side serves a request exactly once
+InvRpcServedOnce == \A i \in Published :
+                    rpc[i].kind = "req" => rpc[i].n <= 1 /\ (Settled(i) => rpc[i].n = 1)
 
 \* no circulation: an instance passes at most two forwarders
 InvHops == \A m \in InFlight : m.hops <= MaxHops
